@@ -131,7 +131,7 @@ pub fn all_units() -> Vec<Unit> {
 }
 
 pub fn unit_index(u: &Unit) -> usize {
-    all_units().iter().position(|x| x == u).expect("unit not in the harness list")
+    all_units().iter().position(|x| x == u).unwrap_or(999)
 }
 
 pub fn tag_code(k: &TokenKind) -> usize {
@@ -165,6 +165,8 @@ pub fn tag_code(k: &TokenKind) -> usize {
         TokenKind::Identifier(_) => 26,
         TokenKind::Number(_) => 27,
         TokenKind::Unit(_) => 28,
+        #[allow(unreachable_patterns)]
+        _ => 99, // a token kind the model does not know: reported as a disagreement, never a build failure
     }
 }
 
@@ -244,6 +246,8 @@ pub fn expr(e: &Expr) -> String {
             expr(callee),
             arguments.iter().map(expr).collect::<Vec<_>>().join(",")
         ),
+        #[allow(unreachable_patterns)]
+        other => format!("?{}", hex(&format!("{:?}", other).chars().take(40).collect::<String>())),
     }
 }
 
@@ -268,6 +272,8 @@ pub fn stmt(s: &Statement) -> String {
             format!("D:{}:({}):{}", tok(name), sig(signature), expr(e))
         }
         Statement::Clear => "K".to_string(),
+        #[allow(unreachable_patterns)]
+        other => format!("?{}", hex(&format!("{:?}", other).chars().take(40).collect::<String>())),
     }
 }
 
@@ -291,7 +297,11 @@ pub fn value(v: &Value) -> String {
                     .collect();
                 format!("fu:{}:{}", hex(&u.name), sigs.join(""))
             }
+            #[allow(unreachable_patterns)]
+            _ => "f?".to_string(),
         },
+        #[allow(unreachable_patterns)]
+        other => format!("v?{}", hex(&format!("{:?}", other).chars().take(40).collect::<String>())),
     }
 }
 
@@ -369,6 +379,12 @@ pub fn eval_err(e: &EvaluationError) -> String {
         ),
         EvaluationError::NoInverseForMatrix(x) => ("noInverseForMatrix", x.line, x.col, String::new()),
         EvaluationError::InvalidMeasurementConversion(x) => ("invalidMeasurementConversion", x.line, x.col, String::new()),
+        #[allow(unreachable_patterns)]
+        other => {
+            // a diagnostic kind the model does not know
+            let name: String = format!("{:?}", other).chars().take_while(|c| c.is_alphanumeric()).collect();
+            return format!("err other:{} 0 0 -", name);
+        }
     };
     format!("err {} {} {} {}", kind, line, col, hex(&info))
 }
@@ -384,6 +400,8 @@ pub fn constraint_name(c: &common::variable::value::constraint::ValueConstraint)
         PositiveInteger => "positive_integer",
         Matrix => "matrix",
         SquareMatrix => "square_matrix",
+        #[allow(unreachable_patterns)]
+        _ => "other",
     }
 }
 
@@ -419,5 +437,7 @@ pub fn parse_err(e: &ParserError) -> String {
             x.col,
             hex(&format!("{}:{}:{}", x.row, x.correct_length, x.length_passed))
         ),
+        #[allow(unreachable_patterns)]
+        other => format!("other:{} - - -", format!("{:?}", other).chars().take_while(|c| c.is_alphanumeric()).collect::<String>()),
     }
 }
